@@ -85,7 +85,7 @@ TLookup ==
            /\ Ev.imp # 0
            /\ ServedBy(Ev.imp, Ev.func, key)
            /\ mru' = exact
-           /\ (mru /\ ~exact) => PrintT(<<"VF:policy", "lookup departs from the first-match / most-recently-used policy modelled in Dispatch.tla, first at event", l>>)
+           /\ (mru /\ ~exact) => PrintT(<<"VF:policy", "first-match/MRU", l>>)
            /\ caches' = IF exact THEN (a :> LookupCache(c, tables, key, anyOp, anyFmt)) @@ caches ELSE caches
            /\ owner' = (a :> Ev.tid) @@ owner
     /\ UNCHANGED <<tables, anyOp, anyFmt, shared, livethr, ref>> /\ Adv
